@@ -257,6 +257,27 @@ func init() {
 		}
 	})
 
+	// ------------------------------------------------------------------ C10.R7
+	// F21: computeHashFromAunts answers nil when no root can be computed from (index, total, aunts). A
+	// nil root equals an empty root under bytes.Equal, so every user of the recomputed root must reject
+	// nil before comparing it or handing it on: otherwise any (item, index, total, path) verifies
+	// against an empty root.
+	register("C10", "R7", "K1", "a recomputed root that does not exist (nil: malformed path) is rejected before it is compared or passed on", 2, func(c *Ctx) {
+		w := c.W
+		k := newKeyer()
+		for _, s := range w.allCallsTo("crypto/merkle#Proof.ComputeRootHash", "crypto/merkle#computeHashFromAunts") {
+			f := transparentRoot(outermost(s.Fn))
+			if relPkg(f) == "crypto/merkle" && (f.Name() == "ComputeRootHash" || f.Name() == "computeHashFromAunts") {
+				continue // the recomputation itself (checked by R3)
+			}
+			root := q(w.callStr(s.Instr.(ssa.CallInstruction)))
+			g := guardAny("the recomputed root exists",
+				guardRe("non-nil", `^nonnil\(`+root+`\)$`),
+				guardCmp("non-empty", `len\(`+root+`\)`, ">", "0"))
+			c.Check(c.ge().ensures(f, g, 0), k.key(f, "succeeds only with a computable root"), w.ipos(s.Instr), "success only behind root != nil", funcKey(f)+" can succeed with a root that could not be computed (nil), which compares equal to an empty root")
+		}
+	})
+
 	// ------------------------------------------------------------------ C10.R4
 	register("C10", "R4", "K1+K5", "tx inclusion proofs: validated against the data hash; built from the same leaves as the data hash", 7, func(c *Ctx) {
 		w := c.W
